@@ -342,14 +342,14 @@ def _measure_2site_rows(self, O0dict, O1dict, xrange, yrange, offset, pairs, opt
                 for ny1 in range(ny0 + 1, yrange[1]):
                     iy1 = ny1 - yrange[0] + offset
                     env.update_env_(iy1 - 1, to='last')
+                    old_tensor = tm[iy1]
+                    add_charge_swaps_(tm, iy1, o0.n, axes='b0')
                     if ((nx0, ny0), (nx1, ny1)) in pairs:
-                        old_tensor = tm[iy1]
-                        add_charge_swaps_(tm, iy1, o0.n, axes='b0')
                         for nz1, o1 in O1dict[nx1, ny1].items():
                             set_operator_(tm, iy1, o1, horizontal=True)
                             out[(nx0, ny0) + nz0, (nx1, ny1) + nz1] = env.measure(bd=(iy1-1, iy1+1)) / norm_env
                         restore_old_tensor_(tm, iy1, old_tensor)
-                        add_charge_swaps_(tm, iy1, o0.n, axes=['k4', 'k2'])
+                    add_charge_swaps_(tm, iy1, o0.n, axes=['k4', 'k2'])  # the string passes every site, measured or not
 
                 iy_end = yrange[1] - 1 - yrange[0] + offset  # the last index in iy loops
                 if nx0 < xrange[1] - 1:
@@ -377,14 +377,14 @@ def _measure_2site_rows(self, O0dict, O1dict, xrange, yrange, offset, pairs, opt
                         if iy1 < iy_end:
                             env.update_env_(iy1 + 1, to='first')
 
+                        old_tensor = tm[iy1]
+                        add_charge_swaps_(tm, iy1, o0.n, axes=['k2', 'k4'])
                         if ((nx0, ny0), (nx1, ny1)) in pairs:
-                            old_tensor = tm[iy1]
-                            add_charge_swaps_(tm, iy1, o0.n, axes=['k2', 'k4'])
                             for nz1, o1 in O1dict[nx1, ny1].items():
                                 set_operator_(tm, iy1, o1, horizontal=True)
                                 out[(nx0, ny0) + nz0, (nx1, ny1) + nz1] = env.measure(bd=(iy1-1, iy1+1)) / norm_env
                             restore_old_tensor_(tm, iy1, old_tensor)
-                            add_charge_swaps_(tm, iy1, o0.n, axes='b0')
+                        add_charge_swaps_(tm, iy1, o0.n, axes='b0')  # the string passes every site, measured or not
     return out
 
 
@@ -430,14 +430,14 @@ def _measure_2site_columns(self, O0dict, O1dict, xrange, yrange, offset, pairs, 
                 for nx1 in range(nx0 + 1, xrange[1]):
                     ix1 = nx1 - xrange[0] + offset
                     env.update_env_(ix1 - 1, to='last')
+                    old_tensor = tm[ix1]
+                    add_charge_swaps_(tm, ix1, o0.n, axes='k1')
                     if ((nx0, ny0), (nx1, ny1)) in pairs:
-                        old_tensor = tm[ix1]
-                        add_charge_swaps_(tm, ix1, o0.n, axes='k1')
                         for nz1, o1 in O1dict[nx1, ny1].items():
                             set_operator_(tm, ix1, o1, horizontal=False)
                             out[(nx0, ny0) + nz0, (nx1, ny1) + nz1] = env.measure(bd=(ix1-1, ix1+1)) / norm_env
                         restore_old_tensor_(tm, ix1, old_tensor)
-                        add_charge_swaps_(tm, ix1, o0.n, axes=['b4', 'b3'])
+                    add_charge_swaps_(tm, ix1, o0.n, axes=['b4', 'b3'])  # the string passes every site, measured or not
 
                 ix_end = xrange[1] - 1 - xrange[0] + offset  # the last index in iy loops
                 if ny0 < yrange[1] - 1:
@@ -465,14 +465,14 @@ def _measure_2site_columns(self, O0dict, O1dict, xrange, yrange, offset, pairs, 
                         if ix1 < ix_end:
                             env.update_env_(ix1 + 1, to='first')
 
+                        old_tensor = tm[ix1]
+                        add_charge_swaps_(tm, ix1, o0.n, axes=['b3', 'b4'])
                         if ((nx0, ny0), (nx1, ny1)) in pairs:
-                            old_tensor = tm[ix1]
-                            add_charge_swaps_(tm, ix1, o0.n, axes=['b3', 'b4'])
                             for nz1, o1 in O1dict[nx1, ny1].items():
                                 set_operator_(tm, ix1, o1, horizontal=False)
                                 out[(nx0, ny0) + nz0, (nx1, ny1) + nz1] = env.measure(bd=(ix1-1, ix1+1)) / norm_env
                             restore_old_tensor_(tm, ix1, old_tensor)
-                            add_charge_swaps_(tm, ix1, o0.n, axes='k1')
+                        add_charge_swaps_(tm, ix1, o0.n, axes='k1')  # the string passes every site, measured or not
 
     return out
 
